@@ -83,11 +83,11 @@ TExec ==
   /\ l <= Len(TraceLog) /\ Rec.ev = "Exec" /\ Rec.id = fid
   /\ ebase' = IF Rec.base THEN Rec.h ELSE ebase
   /\ IF Rec.base \/ Rec.h = ebase THEN TRUE
-     ELSE PrintT(<<"VIOL", fid, ToJson([cfg |-> frec.cfg, rules |-> frec.rules, two |-> frec.two, grp |-> frec.grp, kinds |-> {},
+     ELSE PrintT(<<"VIOL", fid, ToJson([cfg |-> frec.cfg, rules |-> frec.rules, two |-> frec.two, grp |-> frec.grp, sym |-> frec.sym, kinds |-> {},
                                         what |-> [exec |-> Rec.kind]])>>)
   /\ l' = l + 1 /\ UNCHANGED <<vars, fid, done2, frec, base, fby>>
 
-Sig(what) == [cfg |-> frec.cfg, rules |-> frec.rules, two |-> frec.two, grp |-> frec.grp, what |-> what, kinds |-> PremiseKinds(frec)]
+Sig(what) == [cfg |-> frec.cfg, rules |-> frec.rules, two |-> frec.two, grp |-> frec.grp, sym |-> frec.sym, what |-> what, kinds |-> PremiseKinds(frec)]
 
 TOrder ==
   /\ l <= Len(TraceLog) /\ Rec.ev = "Order" /\ Rec.id = fid
@@ -124,7 +124,7 @@ TBin ==
          diffs == IF Rec.base THEN {} ELSE {k \in 1..3 : base[k] # h[k]} IN
      /\ base' = IF Rec.base THEN h ELSE base
      /\ IF diffs = {} /\ ~Rec.race THEN TRUE
-        ELSE PrintT(<<"VIOL", fid, ToJson([cfg |-> frec.cfg, rules |-> frec.rules, two |-> frec.two, grp |-> frec.grp, kinds |-> {},
+        ELSE PrintT(<<"VIOL", fid, ToJson([cfg |-> frec.cfg, rules |-> frec.rules, two |-> frec.two, grp |-> frec.grp, sym |-> frec.sym, kinds |-> {},
                                            what |-> [binary |-> TRUE, outputs |-> diffs, race |-> Rec.race, workers |-> Rec.workers,
                                                      procs |-> Rec.procs, seed |-> Rec.seed]])>>)
   /\ l' = l + 1 /\ UNCHANGED <<vars, fid, done2, frec, fby, ebase>>
